@@ -226,4 +226,10 @@ theorem max_lawful : Lawful (goHeap ltMax ltMax_ok) maxBetter := goMaxHeap_lawfu
 example : Inv (run ⟨true, #[]⟩ [.push ⟨3, 1⟩, .push ⟨1, 2⟩, .push ⟨3, 3⟩, .pop, .reverse, .push ⟨2, 4⟩]) :=
   inv_run _ _ (inv_empty true)
 
+
+/-- the queues compare priorities as float values (regenerated): `-0` and `+0` are one priority. The
+model's priorities are the values' bit patterns with both zeros written as 0, which is the same order;
+comparing raw bit patterns (seeded change C19-E) puts `-0` above everything. -/
+theorem less_compares_float_values : Generated.pqLessComparesFloatValues = true := by decide
+
 end Anndb.C19
